@@ -12,7 +12,14 @@
     divided by sqrt(num_steps) when the correction is on;
 (c) equivariance under the base scale, `damp = 0` and exact initial state: c in [1e-6, 1e6] (half of them powers of
     two): same means, MLE / dynamic scale divided by c, calibrated std unchanged, uncalibrated std times c; adaptive:
-    same number of steps and same accepted times;
+    same number of steps and same accepted times.
+    Decision on "same accepted step sequence": for c a power of two every float operation commutes with the scaling
+    and the runs are bitwise identical (counted in the evidence, not asserted - it rests on LAPACK's QR not branching
+    on magnitudes). For general c the error estimate differs by rounding x (cancellation factor of the ODE residual),
+    so step sizes differ at that level and an acceptance decision can flip only if the acceptance factor is that close
+    to one. Hence: `num_steps` must be equal *exactly*, accepted times must agree to 1e-9 x cancellation factor
+    (relative to the interval), and runs whose closest acceptance factor is within 1e-9 x cancellation factor of the
+    threshold are skipped and counted;
 (d) probes of the excluded points (`damp > 0`, inexact initial state): deviations are *logged*, never asserted.
 """
 
@@ -31,7 +38,7 @@ from harness.core import Cut, F
 PROPS_MODULES = ["Pdq.Props.C04"]
 LEVEL = "proof"
 TOL = 1e-9  # relative, after division by the cancellation factor of the residual
-STD_FLOOR = 1e-4
+STD_FLOOR = 1e-2
 DEGENERATE = 1e12  # cancellation factor beyond which a residual is rounding noise only
 AMP_MAX = 1e7  # whitened residuals that cancel to less than 1e-7 of their summands are not determined by float data
 
@@ -485,7 +492,7 @@ def compare_equivariant(ctx, cfg, d, a, b, c, amp, case, sigp, assert_=True, ext
         ma, sa = L.moments(na, T)
         mb, sb = L.moments(nb, T)
         # the observed coefficient has variance exactly zero for damp = 0 (float: rounding noise): standard deviations
-        # are compared relative to themselves plus 1e-4 x the largest standard deviation at the same time point
+        # are compared relative to themselves plus 1e-2 x the largest standard deviation at the same time point
         den = sa + STD_FLOOR * np.max(sa, axis=1, keepdims=True) + 1e-300
         ex = 0.0 if extra is None else extra[None, :]
         dm = float(np.max(np.abs(mb - ma) / (np.abs(ma) + sa + ex + 1e-300)))
@@ -590,6 +597,17 @@ def equivariance_adaptive(ctx, cfg, d, field, u0s, t0, save_at, tol, clip, cs):
         ctx.skip("whitened residual cancels below 1e-7 of its summands (adaptive equivariance)")
         return
     ta = np.array([float(x[2].t) for x in acc_a])
+    lam = scaled_base(cfg, d, 1.0)
+    steps = []
+    for prev, dt, new in acc_a:
+        mp_, Cp_ = filter_rv(cfg, prev).to_multivariate_normal()
+        if cfg.solver.startswith("dynamic"):
+            o = np.asarray(new.output_scale, dtype=np.float64).reshape(-1)
+            s2 = o**2 if len(o) == d else np.full(d, o[0] ** 2)
+        else:
+            s2 = np.ones(d)
+        steps.append((np.asarray(mp_, dtype=np.float64), np.asarray(Cp_, dtype=np.float64), float(prev.t) + dt, dt, s2))
+    extra = L.mean_noise_steps(cfg, field, d, steps, np.array([lam] * d if cfg.fact == "iso" else lam, dtype=np.float64) ** 2)
     for c in cs:
         pb = run_.args(u0s, t0, scaled_base(cfg, d, c))
         rb, acc_b, margin_b = rep.run(*pb, save_at, tol, tol, 0.1)
@@ -610,7 +628,7 @@ def equivariance_adaptive(ctx, cfg, d, field, u0s, t0, save_at, tol, clip, cs):
         if not np.array_equal(np.asarray(a.num_steps), np.asarray(b.num_steps)):
             ctx.violation(f"{sigp}:num_steps-depends-on-base-scale", f"num_steps {np.asarray(a.num_steps)} vs {np.asarray(b.num_steps)} for c = {c}", case)
             continue
-        compare_equivariant(ctx, cfg, d, a, b, c, amp, case, sigp)
+        compare_equivariant(ctx, cfg, d, a, b, c, amp, case, sigp, extra=extra)
         ctx.case(dict(cfg.key(), d=d, mode="equivariance adaptive", c=c, steps=len(acc_a), tol=tol))
 
 
